@@ -509,8 +509,15 @@ fn run_plan(db: &GrafeoDB, plan: &LogicalPlan, opt: &Optimizer) -> (Option<Logic
     }
 }
 
+thread_local! {
+    /// LIMIT/SKIP without ORDER BY over a join tree that reordering may rebuild: which rows survive is
+    /// not defined by the query, only how many — the oracle compares the number of rows
+    static COUNT_ONLY: std::cell::Cell<bool> = const { std::cell::Cell::new(false) };
+}
+
 fn canon(o: &Outcome, ordered: bool) -> String {
     match &o.rows {
+        Ok(rows) if COUNT_ONLY.with(|c| c.get()) => format!("{} rows (count only)", rows.len()),
         Ok(rows) => {
             let mut v: Vec<String> = rows.iter().map(|r| format!("{:?}", r)).collect();
             if !ordered {
@@ -1179,7 +1186,7 @@ fn gen_plan(r: &mut Rng) -> (LogicalPlan, String, Vec<String>) {
 
 fn corpus(out: &mut Out) {
     let mut fx = corpus_fixture();
-    // C09-K1: the witness of push_filters_refuted (a predicate over a comma pattern and a later MATCH)
+    // C09-K1 (repaired by 7426671) and C09-K2 (repaired by a2be94c): the old witnesses are below and must pass
     let qs: Vec<(&str, bool, bool)> = vec![
         // C09-K3 (repaired by df57ccb, must pass now): push-down stacks the WHERE on the label filter of
         // the expand target; a property map under a WHERE; WHERE .. WITH .. WHERE
@@ -1367,7 +1374,14 @@ fn main() {
                 let (plan, text, tags) = gen_plan(&mut r);
                 // LIMIT/SKIP over a join: which rows survive depends on the engine's join output order
                 let sem_ok = !tags.iter().any(|t| t.contains("limit") || t.contains("skip"));
+                let count_only = !sem_ok && tags.iter().any(|t| t == "join-conditions");
+                COUNT_ONLY.with(|c| c.set(count_only));
+                let mut tags = tags;
+                if count_only {
+                    tags.push("oracle-count-only".into());
+                }
                 treat(&mut out, &mut fx, "plan", &text, &plan, false, sem_ok, tags);
+                COUNT_ONLY.with(|c| c.set(false));
                 done += 1;
             } else {
                 let (q, ordered, sem_ok, tags) = gen_query(&mut r);
